@@ -11,7 +11,7 @@ use crate::out::Out;
 use crate::rng::Rng;
 use crate::Args;
 use redis_sim::production::{ReplicatedShardActor, ReplicatedShardHandle};
-use crate::redisx::{enc_cmd, reply_order, reply_text, value_text};
+use crate::redisx::{enc_cmd, reply_order, reply_text, value_text, variant_info};
 use redis_sim::redis::{Command, RespValue, Value, SDS};
 use redis_sim::replication::lattice::ReplicaId;
 use redis_sim::replication::state::{ReplicationDelta, ShardReplicaState};
@@ -489,6 +489,13 @@ fn pretty(enc: &str) -> String {
         .join(" ")
 }
 
+/// keys whose served entry differs between two dumps
+fn changed_keys(pre: &Dump, post: &Dump) -> Vec<String> {
+    let mut ks: BTreeSet<String> = pre.keys().cloned().collect();
+    ks.extend(post.keys().cloned());
+    ks.into_iter().filter(|k| pre.get(k) != post.get(k)).collect()
+}
+
 fn cmd_keys(c: &Command) -> Vec<String> {
     match c {
         Command::Del(ks) | Command::Exists(ks) | Command::MGet(ks) => ks.clone(),
@@ -595,7 +602,7 @@ impl GCl {
                 let why = self.bad.iter().find(|b| b.0 == i).map(|b| b.1);
                 let sig = match why {
                     Some(r) if r.starts_with("C01:") => r.to_string(),
-                    Some(r) => format!("C06:glue:outside-supported:{}", r),
+                    Some(r) => format!("C06:glue:outside-supported:{}", r.trim_end_matches(":flush")),
                     None => "C06:glue:supported-history-served-differs-from-rs".to_string(),
                 };
                 out.violation(&sig, &format!("node {} serves (pttl, value) {:?} for '{}' but its replication state says {:?}", i, have, k, want), self.replay());
@@ -637,7 +644,24 @@ impl GCl {
         self.hist.push(format!("node{}: {}", i, pretty(&enc)));
         self.cmds += 1;
         if sup != "ok" {
-            self.bad.push((i, sup, cmd_keys(&c)));
+            // FLUSH* explains (by cause) only the keys it dropped, and only until the node writes
+            // them again: a replicated write after the flush must converge like any other
+            let keys = if matches!(c, Command::FlushAll | Command::FlushDb) {
+                pre.1.keys().cloned().collect()
+            } else {
+                let mut ks = cmd_keys(&c);
+                ks.extend(changed_keys(&pre.1, &post.1));
+                ks
+            };
+            self.bad.push((i, if matches!(c, Command::FlushAll | Command::FlushDb) { "non-replicated-writer:flush" } else { sup }, keys));
+        } else {
+            // (only a write that replaces the WHOLE value — a string or a tombstone; a hash write
+            // after the flush merges into the fields the replication state still holds)
+            for d in ds.iter().filter(|d| matches!(MRv::from_real(&d.value).crdt, MCrdt::Lww(_))) {
+                for b in self.bad.iter_mut().filter(|b| b.0 == i && b.1 == "non-replicated-writer:flush") {
+                    b.2.retain(|k| *k != d.key);
+                }
+            }
         }
         let dtext = if ds.is_empty() {
             "none".to_string()
@@ -654,6 +678,32 @@ impl GCl {
         }
         self.check_served(out, i, &post.1).await;
         r
+    }
+
+    /// any `Command` variant through the real actor: modelled commands as `GC` lines, the rest as
+    /// `GA` lines (the recorder must ignore them; the model adopts the executor keyspace)
+    async fn any(&mut self, out: &mut Out, i: usize, c: Command) {
+        out.count(&format!("b:variant:{}", variant_info(&c).0));
+        let probe = enc_cmd(&c, &RespValue::BulkString(None));
+        if probe.is_some() && !matches!(c, Command::RandomKey | Command::SPop(..)) {
+            self.client(out, i, c).await;
+            return;
+        }
+        let pre = dump(&self.hs[i]).await;
+        let (_r, d) = self.hs[i].execute(c.clone()).await;
+        let post = dump(&self.hs[i]).await;
+        self.hist.push(format!("node{}: {:?}", i, variant_info(&c).0));
+        if let Some(d) = d {
+            out.violation(&format!("C06:glue:unexpected-delta:{}", variant_info(&c).0), "a command the recorder is not known to replicate handed back a delta", json!({"history": self.hist.clone(), "key": d.key}));
+        }
+        if pre.0 != post.0 {
+            out.count("b:sup:non-replicated-writer");
+            let mut ks = cmd_keys(&c);
+            ks.extend(changed_keys(&pre.1, &post.1));
+            self.bad.push((i, "non-replicated-writer", ks));
+        }
+        out.op(format!("GA {} ;; {}", i, post.0), format!("adopt | {} | -", post.0));
+        self.check_served(out, i, &post.1).await;
     }
 
     async fn deliver(&mut self, out: &mut Out, j: usize, idx: usize) {
@@ -807,7 +857,7 @@ impl GCl {
                 let (sig, what) = if !reads {
                     match why {
                         Some(r) if r.starts_with("C01:") => (r.to_string(), "conformance defect of the executor"),
-                        Some(r) => (format!("C06:glue:outside-supported:{}", r), "outside the supported fragment; replicas diverge"),
+                        Some(r) => (format!("C06:glue:outside-supported:{}", r.trim_end_matches(":flush")), "outside the supported fragment; replicas diverge"),
                         None if kinds.len() > 1 && distinct.len() > 2 => ("C06:cross-kind-order".to_string(), "type change on the key (three or more deltas): delivery order decides"),
                         None if distinct.len() <= 2 => ("C06:glue:two-deltas-diverge".to_string(), "at most two distinct deltas (commutativity and idempotence suffice)"),
                         None => ("C06:glue:supported-history-diverges".to_string(), "supported history"),
@@ -815,7 +865,7 @@ impl GCl {
                 } else {
                     match why {
                         Some(r) if r.starts_with("C01:") => (r.to_string(), "conformance defect of the executor"),
-                        Some(r) => (format!("C06:glue:outside-supported:{}", r), "outside the supported fragment; TTLs diverge"),
+                        Some(r) => (format!("C06:glue:outside-supported:{}", r.trim_end_matches(":flush")), "outside the supported fragment; TTLs diverge"),
                         None => ("C06:glue:set-without-expiry-cannot-clear-remote-ttl".to_string(), "expiry merged by max / Some-wins on the receiver, overwritten on the writer"),
                     }
                 };
@@ -894,6 +944,12 @@ fn scenarios() -> Vec<(&'static str, usize, Vec<St>, Vec<&'static str>)> {
             R(1, "a", lww_rv(Some("v"), 4, 2, false, Some(5000))), R(1, "h", hash_rv(&[("f", Some("1"), 1), ("g", None, 2)], 2)),
             R(1, "b", lww_rv(None, 30, 2, true, None)), R(1, "c", lww_rv(Some("7"), 3, 1, false, None)),
             C(0, Command::Incr("c".into())), C(0, hset1("h", "g", "3")), C(0, Command::set("b".into(), s("w"))), Sync], vec!["a", "b", "c", "h"]),
+        // FLUSHALL empties the executor only: the replication state (snapshots, checkpoints) keeps the keys
+        // seeded/C08-flush-resets-lamport-clock at the level of what replicas serve: the write after the
+        // flush must win everywhere
+        ("flush-then-rewrite", 2, vec![C(0, Command::set("k".into(), s("a"))), C(0, Command::set("k".into(), s("b"))), C(0, Command::set("k".into(), s("c"))), Sync,
+            C(0, Command::FlushAll), C(0, Command::set("k".into(), s("after"))), Sync], vec!["k"]),
+        ("x:flushall-lingers", 2, vec![C(0, Command::set("a".into(), s("v"))), Sync, C(0, Command::FlushAll)], vec!["a"]),
         ("x:recover-over-existing", 2, vec![C(0, Command::set("a".into(), s("v"))), R(0, "a", lww_rv(None, 30, 2, true, None))], vec!["a"]),
         // seeded/C06-hdel-keeps-outer-stamp, both replica-id orders: a multi-field HDEL reaches a
         // peer, which at once writes one of the deleted fields
@@ -980,8 +1036,52 @@ fn gen_cmd(rng: &mut Rng) -> Command {
     }
 }
 
+/// every Command variant that `ReplicatedShardedState::execute` can hand to a shard actor, once
+/// per run through the real actor, interleaved with replicated writes and deliveries
+async fn variant_sweep(out: &mut Out, rng: &mut Rng) {
+    let all = crate::c17::all_variants(rng, "s", "x", true);
+    let mut seen: BTreeSet<&'static str> = BTreeSet::new();
+    let mut picks: Vec<Command> = Vec::new();
+    let mut idx: Vec<usize> = (0..all.len()).collect();
+    rng.shuffle(&mut idx);
+    for i in idx {
+        let c = &all[i];
+        let reachable = c.get_primary_key().is_some() || matches!(c, Command::FlushDb | Command::FlushAll | Command::DbSize);
+        // only forms a Redis-conformant parser produces (C01's generators avoid the others too)
+        let conformant = match c {
+            Command::Set { .. } | Command::GetEx { .. } => enc_cmd(c, &RespValue::BulkString(None)).is_some(),
+            Command::Expire { nx, xx, gt, lt, .. } | Command::PExpire { nx, xx, gt, lt, .. } => !(*nx && (*xx || *gt || *lt)) && !(*gt && *lt),
+            _ => true,
+        };
+        if reachable && conformant && !matches!(c, Command::Del(ks) if ks.len() > 1) && seen.insert(variant_info(c).0) {
+            picks.push(c.clone());
+        }
+    }
+    for chunk in picks.chunks(12) {
+        let mut cl = GCl::new(out, 2, false);
+        for (n, c) in chunk.iter().enumerate() {
+            let i = n % 2;
+            cl.client(out, i, Command::set("s".into(), s(&format!("{}", n)))).await;
+            cl.any(out, i, c.clone()).await;
+            cl.client(out, 1 - i, hset1("hh", FIELDS[n % 6], "1")).await;
+            if n % 3 == 2 {
+                cl.deliver_all(out, None).await;
+            }
+        }
+        cl.deliver_all(out, None).await;
+        let text = cl.hist.join("; ");
+        cl.finish(out, &["s", "x", "hh"]).await;
+        out.count("b:variant-sweep-history");
+        out.case(&format!("B:sweep:{}", text), true);
+    }
+}
+
 async fn part_b(out: &mut Out, rng: &mut Rng, n_random: u64) {
     system_scenarios(out).await;
+    {
+        let mut r = rng.fork();
+        variant_sweep(out, &mut r).await;
+    }
     for (name, n, steps, keys) in scenarios() {
         let mut cl = GCl::new(out, n, false);
         for st in steps {
@@ -1132,5 +1232,5 @@ pub fn run(a: &Args) {
     let rt = tokio::runtime::Builder::new_current_thread().enable_all().build().unwrap();
     let nb = (a.n * 2).max(40);
     rt.block_on(part_b(&mut out, &mut rng, nb));
-    out.finish("case (part A) = one cluster history: 2..4 real ShardReplicaStates, 4..40 events (local SET[PX]/DEL/HSET/HDEL (1..6 fields, repetitions) on 3 colliding keys, a third of the local ops followed by write-after-receive (the delta reaches another node, which at once writes one of the touched registers); deliveries of arbitrary earlier deltas to arbitrary nodes incl. duplicates), then usually delivery of everything missing in random order; per key the flags delivered/compat/agree/agreeexp are compared with the model; non-trivial iff some key has ≥ 2 deltas and is fully delivered. Case (part B) = one history on 2..3 real ReplicatedShardActors: 2..10 client commands (SET with NX/XX/GET/EX/PX/KEEPTTL/EXAT/PXAT, GETSET, INCR/DECR/INCRBY/DECRBY, APPEND, DEL of 1..3 keys, HSET/HDEL/HINCRBY, on keys shared between string and hash commands; one third of the histories also MSET/SETNX/GETDEL/EXPIRE/PERSIST/RENAME/RPUSH/MSETNX/FLUSHALL) interleaved with deliveries of arbitrary earlier deltas, then usually delivery of everything missing in random order with duplicates; every step is compared with the Lean glue model (reply, served keyspace, delta / merged value, supported-fragment verdict), then GET/EXISTS/HGETALL/TTL on every node and the per-key flags delivered/kind/agree/reads; non-trivial iff ≥ 2 deltas and complete delivery; plus 21 fixed scenarios. Distinct by history text");
+    out.finish("case (part A) = one cluster history: 2..4 real ShardReplicaStates, 4..40 events (local SET[PX]/DEL/HSET/HDEL (1..6 fields, repetitions) on 3 colliding keys, a third of the local ops followed by write-after-receive (the delta reaches another node, which at once writes one of the touched registers); deliveries of arbitrary earlier deltas to arbitrary nodes incl. duplicates), then usually delivery of everything missing in random order; per key the flags delivered/compat/agree/agreeexp are compared with the model; non-trivial iff some key has ≥ 2 deltas and is fully delivered. Case (part B) = one history on 2..3 real ReplicatedShardActors: 2..10 client commands (SET with NX/XX/GET/EX/PX/KEEPTTL/EXAT/PXAT, GETSET, INCR/DECR/INCRBY/DECRBY, APPEND, DEL of 1..3 keys, HSET/HDEL/HINCRBY, on keys shared between string and hash commands; one third of the histories also MSET/SETNX/GETDEL/EXPIRE/PERSIST/RENAME/RPUSH/MSETNX/FLUSHALL) interleaved with deliveries of arbitrary earlier deltas, then usually delivery of everything missing in random order with duplicates; every step is compared with the Lean glue model (reply, served keyspace, delta / merged value, supported-fragment verdict), then GET/EXISTS/HGETALL/TTL on every node and the per-key flags delivered/kind/agree/reads; non-trivial iff ≥ 2 deltas and complete delivery; plus 23 fixed scenarios and a sweep of every Command variant a shard actor can receive (GA lines for commands outside the model). Distinct by history text");
 }
